@@ -209,8 +209,8 @@ def _batch(args):
         shutil.rmtree(wd, ignore_errors=True)
 
 
-def validate(cases, procs=8, timeout=1800):
-    per = min(150, max(10, len(cases) // procs + 1))       # CaseRunner's cost is quadratic in the batch length
+def validate(cases, procs=6, timeout=1800):
+    per = min(2000, max(20, len(cases) // procs + 1))
     jobs = [(cases[i:i + per], list(range(i, min(len(cases), i + per))), timeout) for i in range(0, len(cases), per)]
     rj, par, states = [], {}, 0
     with cf.ThreadPoolExecutor(max_workers=procs) as ex:
@@ -268,8 +268,8 @@ def run(res, tier, seed):
     design = pool.submit(explore_design, res, tier)
     rng = random.Random(seed * 15485863 + 19)
     fams = ("ident", "sparse", "str", "zero")
-    plan = [(gen_exact, 90 if quick else 1200), (gen_large, 50 if quick else 800), (gen_background, 50 if quick else 600)]
-    n_mp = 3 if quick else 40
+    plan = [(gen_exact, 150 if quick else 2000), (gen_large, 80 if quick else 1200), (gen_background, 80 if quick else 900)]
+    n_mp = 4 if quick else 40
     cases, descr, raws = [], [], []
     i = 0
     for gen, count in plan:
